@@ -100,7 +100,8 @@ func GenInput(t *simrt.Tape, class string) (name string, text string) {
 	case InTokenConflict:
 		b.WriteString([]string{"AA = /[a-z]+/;\nBB = /[a-c]+/;\nstart = AA BB;\n", "XX = /ab*/;\nYY = /a+/;\nstart = XX | YY;\n"}[t.Draw(2)])
 	case InLALRConflict:
-		b.WriteString([]string{"start = start \"+\" start | \"n\";\n", "start = a | b;\na = \"x\";\nb = \"x\";\n"}[t.Draw(2)])
+		b.WriteString([]string{"start = start \"+\" start | \"n\";\n", "start = a | b;\na = \"x\";\nb = \"x\";\n",
+			"ID = /[a-z]+/;\nstart = [ ID \",\" ] ID;\n", "start = [ \"x\" \"y\" ] [ \"x\" \"z\" ] \"x\";\n", "start = ( \"a\" \"b\" | \"a\" ) \"b\" [ \"b\" \"c\" ] \"b\";\n"}[t.Draw(5)])
 	case InBadPattern:
 		b.WriteString([]string{"TK = /[z-a]/;\nstart = TK;\n", "TK = /a{3,1}/;\nstart = TK;\n", "TK = /(/;\nstart = TK;\n"}[t.Draw(3)])
 	case InEmpty:
